@@ -172,6 +172,9 @@ func (c *ccComp) Gen(r *rand.Rand, tier string) []string {
 				q = q[:r.Intn(len(q)+1)]
 			}
 			seq = append(seq, "qerr "+encPath(q))
+			if r.Intn(2) == 0 {
+				seq = append(seq, "pwd "+encPath(q)) // ... and a conditional delete abandoned by a panicking condition
+			}
 		default:
 			seq = append(seq, "walks")
 		}
@@ -256,7 +259,7 @@ func (c *ccComp) Run(args []string) string {
 		return "ok"
 	}
 	switch args[0] {
-	case "add", "del", "get", "walks", "qerr":
+	case "add", "del", "get", "walks", "qerr", "pwd":
 		// sequential operations on a small tree take microseconds: one that has not returned after the
 		// deadline is blocked for good (a lock left behind by an earlier operation) — the property
 		// promises the tree never deadlocks
@@ -302,6 +305,15 @@ func (c *ccComp) runSeq(args []string) string {
 		// next writer there blocks for ever, and with it every later walk).  Nothing to observe here; the
 		// operations that follow show whether a lock stayed behind.
 		c.t.Query(decPath(args[1]), func([]string, *ctree.Leaf, interface{}) error { return errors.New("visitor gave up") })
+		return "ok"
+	case "pwd":
+		// a conditional delete whose caller-supplied condition panics on the first value it is shown (an unchecked type
+		// assertion on an unexpected value) and whose caller recovers: nothing was deleted, and no lock stays behind — the
+		// operations that follow show whether one did (seeded change c10_seed12: WalkDeleted without its deferred Unlock).
+		func() {
+			defer func() { recover() }()
+			c.t.WalkDeleted(decPath(args[1]), func(interface{}) bool { panic("unexpected value") }, func(interface{}) {})
+		}()
 		return "ok"
 	case "_stats": // manual use only (never generated): how many window schedules were really forced
 		return fmt.Sprintf("forced=%d search-gave-up=%d", atomic.LoadInt64(&ccForced), atomic.LoadInt64(&ccGaveUp))
